@@ -596,7 +596,7 @@ theorem nsOf_no_xmlns (n : Str) (as : List (Str × Str)) (ks : List Node) (pns :
   simp only [Node.nsOf, this]
 
 theorem nsOf_mk' (h : Head) (pns : Str) (as : List (Str × Str)) (ks : List Node)
-    (hok : h.ok pns = true) (hx : ∀ kv ∈ as, ¬ kv.1 = xmlnsKey) : (h.mk' as ks).nsOf pns = h.ns := by
+    (hok : h.ok pns = true) (hx : ∀ kv ∈ h.extra ++ as, ¬ kv.1 = xmlnsKey) : (h.mk' as ks).nsOf pns = h.ns := by
   unfold Head.mk' nsAttr
   cases hd : h.decl with
   | true => simp [Node.nsOf, xmlnsKey]
@@ -604,6 +604,57 @@ theorem nsOf_mk' (h : Head) (pns : Str) (as : List (Str × Str)) (ks : List Node
     simp only [Head.ok, hd, Bool.false_or, beq_iff_eq] at hok
     simp only [Bool.false_eq_true, if_false, List.nil_append]
     rw [nsOf_no_xmlns _ _ _ _ hx, hok]
+
+theorem tagParts_eq {v : Val} {i : Option Nat} {t : Str} (h : v.tagParts = some (i, t)) :
+    v = .record [.opt i, .str t] := by
+  unfold Val.tagParts at h
+  split at h
+  · simp only [Option.some.injEq, Prod.mk.injEq] at h
+    obtain ⟨rfl, rfl⟩ := h
+    rfl
+  · simp at h
+
+/-! ### first / last match -/
+
+theorem pickChild_none (last : Bool) (p : Node → Bool) (Q S : List Node)
+    (hQ : ∀ k ∈ Q, p k = false) (hS : ∀ k ∈ S, p k = false) : pickChild last p (Q ++ S) = none := by
+  have h1 : (Q ++ S).filter p = [] := by
+    rw [List.filter_append]
+    have a : Q.filter p = [] := by simpa using hQ
+    have b : S.filter p = [] := by simpa using hS
+    rw [a, b]; rfl
+  have h2 : (Q ++ S).find? p = none := by
+    simp only [List.find?_eq_none, List.mem_append]
+    intro k hk
+    rcases hk with hk | hk
+    · simp [hQ k hk]
+    · simp [hS k hk]
+  unfold pickChild
+  cases last <;> simp [h1, h2]
+
+theorem pickChild_single (last : Bool) (p : Node → Bool) (Q S : List Node) (k : Node)
+    (hQ : ∀ k ∈ Q, p k = false) (hS : ∀ k ∈ S, p k = false) (hk : p k = true) :
+    pickChild last p (Q ++ (k :: S)) = some k := by
+  have a : Q.filter p = [] := by simpa using hQ
+  have b : S.filter p = [] := by simpa using hS
+  have h1 : (Q ++ (k :: S)).filter p = [k] := by
+    rw [List.filter_append, a, List.filter_cons_of_pos hk, b]; rfl
+  have h2 : (Q ++ (k :: S)).find? p = some k := by
+    rw [find?_frame p Q (k :: S) hQ]; simp [hk]
+  unfold pickChild
+  cases last <;> simp [h1, h2]
+
+theorem extra_no_xmlns {h : Head} {fs : List Field} (he : h.extraOk fs = true) :
+    ∀ kv ∈ h.extra, ¬ kv.1 = xmlnsKey := by
+  intro kv hkv
+  simp only [Head.extraOk, List.all_eq_true, Bool.and_eq_true, bne_iff_ne, ne_eq] at he
+  exact (he kv hkv).1
+
+theorem extra_not_read {h : Head} {fs : List Field} (he : h.extraOk fs = true) :
+    ∀ kv ∈ h.extra, ∀ f ∈ fs, f.reads kv.1 = false := by
+  intro kv hkv f hf
+  simp only [Head.extraOk, List.all_eq_true, Bool.and_eq_true, Bool.not_eq_true'] at he
+  exact (he kv hkv).2 f hf
 
 theorem deepText_textNode (t : Str) (as : List (Str × Str)) (s : Str) :
     deepText (.elem t as (textNode s)) = s := by
@@ -627,10 +678,15 @@ theorem encF_attrs (f : Field) (v : Val) : ∀ kv ∈ (encF f v).1, f.writes kv.
   | enumChild ns decl anyNs names m =>
     simp only [encF] at h
     split at h <;> simp at h
+  | tagChild ns decl anyNs names skip ko l tf =>
+    simp only [encF] at h
+    split at h <;> simp at h
   | child hd fs mode =>
     simp only [encF] at h
     split at h
-    · split at h <;> simp at h
+    · split at h
+      · simp at h
+      · split at h <;> simp at h
     · simp at h
   | many hd fs ne =>
     simp only [encF] at h
@@ -681,6 +737,26 @@ theorem encFs_no_xmlns {pns : Str} {fs : List Field} (vs : List Val) (h : wfFs p
   have hr' := writes_reads hr
   simp [this] at hr'
 
+theorem mk_no_xmlns {h : Head} {fs : List Field} (he : h.extraOk fs = true) (vs : List Val)
+    (hw : wfFs h.ns fs = true) : ∀ kv ∈ h.extra ++ (encFs fs vs).1, ¬ kv.1 = xmlnsKey := by
+  intro kv hkv
+  simp only [List.mem_append] at hkv
+  rcases hkv with hkv | hkv
+  · exact extra_no_xmlns he kv hkv
+  · exact encFs_no_xmlns vs hw kv hkv
+
+theorem prefix_not_read {h : Head} {fs : List Field} (he : h.extraOk fs = true) (hw : wfFs h.ns fs = true) :
+    ∀ kv ∈ nsAttr h.decl h.ns ++ h.extra, ∀ f ∈ fs, f.reads kv.1 = false := by
+  intro kv hkv f hf
+  simp only [List.mem_append] at hkv
+  rcases hkv with hkv | hkv
+  · have hk : kv.1 = xmlnsKey := by
+      unfold nsAttr at hkv
+      split at hkv <;> simp at hkv
+      rw [hkv]
+    rw [hk]; exact wfF_reads_xmlns (wfFs_mem hw f hf)
+  · exact extra_not_read he kv hkv f hf
+
 def Field.isText : Field → Bool
   | .text _ => true
   | _ => false
@@ -717,6 +793,25 @@ theorem encF_kids (pns : Str) (f : Field) (v : Val) (hw : wfF pns f = true) (hc 
       simp only [Node.isElem, Node.name, hns, Field.heads, List.mem_map, true_and]
       exact ⟨nth names i, nth_mem hc, rfl⟩
     · simp at hk
+  | tagChild ns decl anyNs names skip ko l tf =>
+    right
+    simp only [encF] at hk
+    split at hk
+    · rename_i i tx hp
+      simp only [List.mem_singleton] at hk
+      subst hk
+      simp only [canonF, hp, Bool.and_eq_true, decide_eq_true_eq] at hc
+      simp only [wfF, Bool.and_eq_true, Bool.or_eq_true, beq_iff_eq] at hw
+      have hns : (Node.elem (nth names i) (nsAttr decl ns) (textNode tx)).nsOf pns = ns := by
+        unfold nsAttr
+        cases hd : decl with
+        | true => simp [Node.nsOf, xmlnsKey]
+        | false =>
+          have : ns = pns := by simpa [hd] using hw.1.1.1
+          simp [Node.nsOf, this]
+      simp only [Node.isElem, Node.name, hns, Field.heads, List.mem_map, true_and]
+      exact ⟨nth names i, nth_mem hc.1, rfl⟩
+    · simp at hk
   | child hd fs mode =>
     right
     simp only [wfF, Bool.and_eq_true] at hw
@@ -725,10 +820,12 @@ theorem encF_kids (pns : Str) (f : Field) (v : Val) (hw : wfF pns f = true) (hc 
     · rename_i vs
       split at hk
       · simp at hk
-      · simp only [List.mem_singleton] at hk
-        subst hk
-        rw [nsOf_mk' hd pns _ (encFs fs vs).2 hw.1 (encFs_no_xmlns vs hw.2)]
-        simp [Field.heads, Head.mk', Node.isElem, Node.name]
+      · split at hk
+        · simp at hk
+        · simp only [List.mem_singleton] at hk
+          subst hk
+          rw [nsOf_mk' hd pns _ (encFs fs vs).2 hw.1.1.1 (mk_no_xmlns hw.1.1.2 vs hw.1.2)]
+          simp [Field.heads, Head.mk', Node.isElem, Node.name]
     · simp at hk
   | many hd fs ne =>
     right
@@ -738,7 +835,7 @@ theorem encF_kids (pns : Str) (f : Field) (v : Val) (hw : wfF pns f = true) (hc 
     · rename_i items
       simp only [List.mem_map] at hk
       obtain ⟨it, _, rfl⟩ := hk
-      rw [nsOf_mk' hd pns _ (encFs fs it.recVals).2 hw.1 (encFs_no_xmlns it.recVals hw.2)]
+      rw [nsOf_mk' hd pns _ (encFs fs it.recVals).2 hw.1.1 (mk_no_xmlns hw.1.2 it.recVals hw.2)]
       simp [Field.heads, Head.mk', Node.isElem, Node.name]
     · simp at hk
 
@@ -792,6 +889,20 @@ theorem indep_sees (pns : Str) (f g : Field) (v : Val) (hi : indep f g = true)
         (fun hd => anyNs || hd.2 == ns) hall k hk
       simp only [Field.sees, matchesNs, this.1, Bool.true_and]
       exact this.2
+  | tagChild ns decl anyNs names skip ko l tf =>
+    cases hgt : g.isText with
+    | true =>
+      rcases encF_kids pns g v hwg hcg k hk with h' | h'
+      · simp [Field.sees, tagCand, h'.2]
+      · cases g <;> simp_all [Field.isText, Field.heads]
+    | false =>
+      have hall : g.heads.all (fun hd => !((anyNs || hd.2 == ns) && !skip.contains hd.1
+          && (!ko || names.contains hd.1))) = true := by
+        cases g <;> simp_all [indep, Field.isText]
+      have := heads_all_sees pns g v hwg hcg hgt
+        (fun hd => (anyNs || hd.2 == ns) && !skip.contains hd.1 && (!ko || names.contains hd.1)) hall k hk
+      simp only [Field.sees, tagCand, this.1, Bool.true_and]
+      exact this.2
   | child h fs mode =>
     cases hgt : g.isText with
     | true =>
@@ -832,6 +943,66 @@ theorem encFs_sees (pns : Str) (f : Field) : ∀ (fs : List Field) (vs : List Va
     · exact indep_sees pns f g v (hi g (by simp)) hwg hc.1 k hk
     · exact encFs_sees pns f fs vs hwfs hc.2 (fun g' hg' => hi g' (by simp [hg'])) k hk
 
+/-! ### guarded wrappers -/
+
+theorem guardEmpty_of_empty : ∀ (n : Nat) (fs : List Field) (vs : List Val),
+    encFs fs vs = ([], []) → guardEmpty n fs vs = true
+  | 0, _, _, _ => by simp [guardEmpty]
+  | _ + 1, [], _, _ => by simp [guardEmpty]
+  | _ + 1, _ :: _, [], _ => by simp [guardEmpty]
+  | n + 1, f :: fs, v :: vs, h => by
+    simp only [encFs, Prod.mk.injEq, List.append_eq_nil_iff] at h
+    have ih := guardEmpty_of_empty n fs vs (Prod.ext h.1.2 h.2.2)
+    simp [guardEmpty, h.1.1, h.2.1, ih]
+
+theorem beq_optional_optional : (ChildMode.optional == ChildMode.optional) = true := rfl
+theorem beq_wrapOmit_optional : (ChildMode.wrapOmit == ChildMode.optional) = false := rfl
+theorem beq_wrapOmit_wrapOmit : (ChildMode.wrapOmit == ChildMode.wrapOmit) = true := rfl
+theorem beq_wrapGuard_optional (n : Nat) : (ChildMode.wrapGuard n == ChildMode.optional) = false := rfl
+theorem beq_wrapGuard_wrapOmit (n : Nat) : (ChildMode.wrapGuard n == ChildMode.wrapOmit) = false := rfl
+
+theorem attr_nil (k : Str) : attr [] k = [] := by simp [attr]
+
+theorem pickChild_nil (last : Bool) (p : Node → Bool) : pickChild last p [] = none := by
+  cases last <;> simp [pickChild]
+
+mutual
+theorem encF_null_quiet : ∀ (f : Field) (pns : Str), quietF f = true →
+    encF f (decF pns nullNode f) = ([], [])
+  | .attr name ty omitD, pns, h => by
+    simp only [quietF, Bool.and_eq_true] at h
+    simp [decF, encF, nullNode, Node.attrs, attr_nil, h.1, h.2]
+  | .attrReadOnly .., _, _ => by simp [encF]
+  | .text ty, pns, h => by
+    simp only [quietF, List.isEmpty_iff] at h
+    simp [decF, encF, nullNode, deepText, deepTextList, h, textNode]
+  | .enumChild .., _, _ => by simp [decF, encF, nullNode, Node.kids]
+  | .tagChild .., _, _ => by simp [decF, encF, nullNode, Node.kids, pickChild_nil, Val.tagParts]
+  | .many .., _, _ => by simp [decF, encF, nullNode, Node.kids]
+  | .child hd fs mode, pns, h => by
+    simp only [decF, nullNode, Node.kids, pickChild_nil, Option.filter_none]
+    cases mode with
+    | optional => simp [encF, beq_optional_optional]
+    | wrapAlways => simp [quietF] at h
+    | wrapOmit =>
+      simp only [quietF] at h
+      have ih := encFs_null_quiet fs hd.ns h
+      simp only [nullNode] at ih
+      simp [encF, ih, beq_wrapOmit_optional, beq_wrapOmit_wrapOmit]
+    | wrapGuard n =>
+      simp only [quietF] at h
+      have ih := encFs_null_quiet fs hd.ns h
+      simp only [nullNode] at ih
+      have hg := guardEmpty_of_empty n fs _ ih
+      simp [encF, ih, hg, beq_wrapGuard_optional, beq_wrapGuard_wrapOmit, ChildMode.isGuard, ChildMode.guardN]
+theorem encFs_null_quiet : ∀ (fs : List Field) (pns : Str), quietFs fs = true →
+    encFs fs (decFs pns nullNode fs) = ([], [])
+  | [], _, _ => by simp [decFs, encFs]
+  | f :: fs, pns, h => by
+    simp only [quietFs, Bool.and_eq_true] at h
+    simp [decFs, encFs, encF_null_quiet f pns h.1, encFs_null_quiet fs pns h.2]
+end
+
 /-! ### the generic round trip: one induction over the field list -/
 
 theorem reads_false_ne {f : Field} {name : Str} {ty : FTy} {o : Bool} (h : f = .attr name ty o)
@@ -841,7 +1012,7 @@ theorem reads_false_ne {f : Field} {name : Str} {ty : FTy} {o : Bool} (h : f = .
   exact fun e => hr e.symm
 
 theorem head_matches_mk' (h : Head) (pns : Str) (as : List (Str × Str)) (ks : List Node)
-    (hok : h.ok pns = true) (hx : ∀ kv ∈ as, ¬ kv.1 = xmlnsKey) :
+    (hok : h.ok pns = true) (hx : ∀ kv ∈ h.extra ++ as, ¬ kv.1 = xmlnsKey) :
     h.matches pns (h.mk' as ks) = true := by
   have := nsOf_mk' h pns as ks hok hx
   simp only [Head.matches, this]
@@ -900,47 +1071,90 @@ theorem decF_encF : ∀ (f : Field) (pns t : Str) (P R : List (Str × Str)) (Q S
           simp [matchesNs, hns, Node.isElem]
         simp only [List.singleton_append, List.find?_cons, hm, Node.name, idxOf_nth hw.2 hc]
     | _ => simp [canonF] at hc
+  | .tagChild ns decl anyNs names skip ko last tf, pns, t, P, R, Q, S, v, hw, hc, _, _, hQ, hS => by
+    simp only [Field.sees] at hQ hS
+    simp only [decF, Node.kids, encF]
+    cases hp : v.tagParts with
+    | none => simp [canonF, hp] at hc
+    | some it =>
+      obtain ⟨i, tx⟩ := it
+      have hv := tagParts_eq hp
+      cases i with
+      | none =>
+        simp only [canonF, hp, List.isEmpty_iff] at hc
+        subst hc
+        simp only [List.nil_append, pickChild_none _ _ Q S hQ hS, hv]
+      | some i =>
+        simp only [canonF, hp, Bool.and_eq_true, decide_eq_true_eq, Bool.or_eq_true, List.isEmpty_iff] at hc
+        simp only [wfF, Bool.and_eq_true, Bool.or_eq_true, beq_iff_eq, Bool.not_eq_true',
+          contains_false_iff, List.all_eq_true] at hw
+        have hns : (Node.elem (nth names i) (nsAttr decl ns) (textNode tx)).nsOf pns = ns := by
+          unfold nsAttr
+          cases hd : decl with
+          | true => simp [Node.nsOf, xmlnsKey]
+          | false =>
+            have : ns = pns := by simpa [hd] using hw.1.1.1
+            simp [Node.nsOf, this]
+        have hmem := nth_mem hc.1
+        have hm : tagCand ns anyNs names skip ko pns (Node.elem (nth names i) (nsAttr decl ns) (textNode tx)) = true := by
+          simp [tagCand, hns, Node.isElem, Node.name, hmem, hw.2 _ hmem]
+        simp only [List.singleton_append, pickChild_single _ _ Q S _ hQ hS hm, Node.name, idxOf_nth hw.1.2 hc.1,
+          deepText_textNode, hv]
+        rcases hc.2 with h | h
+        · subst h; simp
+        · have h' : i ∈ tf := by simpa using h
+          simp [h']
   | .child h fs mode, pns, t, P, R, Q, S, v, hw, hc, _, _, hQ, hS => by
     simp only [Field.sees] at hQ hS
     simp only [wfF, Bool.and_eq_true] at hw
+    obtain ⟨⟨⟨hok, hex⟩, hwfs⟩, _⟩ := hw
     simp only [decF, Node.kids, encF]
-    rw [find?_frame _ Q _ hQ]
     cases v with
     | absent =>
       simp only [canonF] at hc
-      simp only [List.nil_append, find?_none_of_all_false _ S hS, hc, if_true, Option.filter_none]
+      simp only [List.nil_append, pickChild_none _ _ Q S hQ hS, hc, if_true, Option.filter_none]
     | record vs =>
-      simp only [canonF] at hc
+      simp only [canonF, Bool.and_eq_true] at hc
+      obtain ⟨hcf, hcg⟩ := hc
+      -- an element that is not written reads back as all defaults, which is what `vs` is
+      have hnull : (encFs fs vs).1 = [] → (encFs fs vs).2 = [] → decFs h.ns nullNode fs = vs := by
+        intro e1 e2
+        have := decFs_encFs fs h.ns [] [] [] vs hwfs hcf (by simp) (by simp)
+        rw [e1, e2] at this
+        simpa [nullNode] using this
       cases hcond : (mode == ChildMode.wrapOmit && (encFs fs vs).1.isEmpty && (encFs fs vs).2.isEmpty) with
       | true =>
-        -- wrapper omitted: everything inside is empty
         simp only [hcond, ↓reduceIte]
         simp only [Bool.and_eq_true, List.isEmpty_iff] at hcond
         have hmode : (mode == ChildMode.optional) = false := by
           have h1 := hcond.1.1
           cases mode <;> first | rfl | exact absurd h1 (by decide)
-        simp only [List.nil_append, find?_none_of_all_false _ S hS, hmode, Bool.false_eq_true, if_false,
+        simp only [List.nil_append, pickChild_none _ _ Q S hQ hS, hmode, Bool.false_eq_true, if_false,
           Option.filter_none]
-        have := decFs_encFs fs h.ns [] [] [] vs hw.2 hc (by simp) (by simp)
-        rw [hcond.1.2, hcond.2] at this
-        simpa [nullNode] using congrArg Val.record this
+        exact congrArg Val.record (hnull hcond.1.2 hcond.2)
       | false =>
         simp only [hcond, Bool.false_eq_true, ↓reduceIte]
-        have hx := encFs_no_xmlns vs hw.2
-        have hm := head_matches_mk' h pns (encFs fs vs).1 (encFs fs vs).2 hw.1 hx
-        have hns := nsOf_mk' h pns _ (encFs fs vs).2 hw.1 hx
-        simp only [List.singleton_append, List.find?_cons, hm, Option.filter_some, hns, beq_self_eq_true,
-          Bool.or_true, if_true]
-        have := decFs_encFs fs h.ns h.tag (nsAttr h.decl h.ns) [] vs hw.2 hc
-          (by
-            intro kv hkv f hf
-            have hk : kv.1 = xmlnsKey := by
-              unfold nsAttr at hkv
-              split at hkv <;> simp at hkv
-              rw [hkv]
-            rw [hk]; exact wfF_reads_xmlns (wfFs_mem hw.2 f hf))
-          (by simp)
-        simpa [Head.mk'] using congrArg Val.record this
+        cases hg : guardOff mode fs vs with
+        | true =>
+          have hg' : (mode.isGuard && guardEmpty mode.guardN fs vs) = true := hg
+          have hmode : (mode == ChildMode.optional) = false := by
+            cases mode <;> first | rfl | (simp [guardOff, ChildMode.isGuard] at hg)
+          simp only [hg', ↓reduceIte, List.nil_append, pickChild_none _ _ Q S hQ hS, hmode, Bool.false_eq_true,
+            if_false, Option.filter_none]
+          simp only [hg, Bool.not_true, Bool.false_or, Bool.and_eq_true, List.isEmpty_iff] at hcg
+          exact congrArg Val.record (hnull hcg.1 hcg.2)
+        | false =>
+          have hg' : (mode.isGuard && guardEmpty mode.guardN fs vs) = false := hg
+          simp only [hg', Bool.false_eq_true, ↓reduceIte]
+          have hx := mk_no_xmlns hex vs hwfs
+          have hm := head_matches_mk' h pns (encFs fs vs).1 (encFs fs vs).2 hok hx
+          have hns := nsOf_mk' h pns _ (encFs fs vs).2 hok hx
+          have hdec := decFs_encFs fs h.ns h.tag (nsAttr h.decl h.ns ++ h.extra) [] vs hwfs hcf
+            (prefix_not_read hex hwfs) (by simp)
+          have hdec' : decFs h.ns (h.mk' (encFs fs vs).1 (encFs fs vs).2) fs = vs := by
+            simpa [Head.mk'] using hdec
+          simp only [List.singleton_append, pickChild_single _ _ Q S _ hQ hS hm, Option.filter_some, hns,
+            beq_self_eq_true, Bool.or_true, if_true, hdec', hg, Bool.false_eq_true, ↓reduceIte]
     | _ => simp [canonF] at hc
   | .many h fs ne, pns, t, P, R, Q, S, v, hw, hc, _, _, hQ, hS => by
     simp only [Field.sees] at hQ hS
@@ -954,7 +1168,7 @@ theorem decF_encF : ∀ (f : Field) (pns t : Str) (P R : List (Str × Str)) (Q S
         intro k hk
         simp only [List.mem_map] at hk
         obtain ⟨it, _, rfl⟩ := hk
-        exact head_matches_mk' h pns _ _ hw.1 (encFs_no_xmlns it.recVals hw.2)
+        exact head_matches_mk' h pns _ _ hw.1.1 (mk_no_xmlns hw.1.2 it.recVals hw.2)
       rw [List.filter_append, List.filter_append, filter_nil_of_all_false _ Q hQ,
         filter_nil_of_all_false _ S hS, filter_self_of_all_true _ _ hall, List.nil_append, List.append_nil,
         List.map_map]
@@ -970,18 +1184,11 @@ theorem decF_encF : ∀ (f : Field) (pns t : Str) (P R : List (Str × Str)) (Q S
         cases it with
         | record vs =>
           simp only at hit
-          have hx := encFs_no_xmlns vs hw.2
+          have hx := mk_no_xmlns hw.1.2 vs hw.2
           simp only [Function.comp, Val.recVals]
-          rw [nsOf_mk' h pns _ _ hw.1 hx]
-          have := decFs_encFs fs h.ns h.tag (nsAttr h.decl h.ns) [] vs hw.2 hit
-            (by
-              intro kv hkv f hf
-              have hk : kv.1 = xmlnsKey := by
-                unfold nsAttr at hkv
-                split at hkv <;> simp at hkv
-                rw [hkv]
-              rw [hk]; exact wfF_reads_xmlns (wfFs_mem hw.2 f hf))
-            (by simp)
+          rw [nsOf_mk' h pns _ _ hw.1.1 hx]
+          have := decFs_encFs fs h.ns h.tag (nsAttr h.decl h.ns ++ h.extra) [] vs hw.2 hit
+            (prefix_not_read hw.1.2 hw.2) (by simp)
           simpa [Head.mk'] using congrArg Val.record this
         | _ => simp at hit
     | _ => simp [canonF] at hc
@@ -1028,11 +1235,11 @@ end
 /-! ### every decode result is canonical -/
 
 mutual
-theorem canonF_decF : ∀ (f : Field) (pns : Str) (x : Node), canonF f (decF pns x f) = true
-  | .attr name ty o, pns, x => by simp only [decF, canonF, FTy.canon_parse]
-  | .attrReadOnly name ty, pns, x => by simp only [decF, canonF, FTy.canon_parse]
-  | .text ty, pns, x => by simp only [decF, canonF, FTy.canon_parse]
-  | .enumChild ns decl anyNs names m, pns, x => by
+theorem canonF_decF : ∀ (f : Field) (pw pns : Str) (x : Node), wfF pw f = true → canonF f (decF pns x f) = true
+  | .attr name ty o, _, pns, x, _ => by simp only [decF, canonF, FTy.canon_parse]
+  | .attrReadOnly name ty, _, pns, x, _ => by simp only [decF, canonF, FTy.canon_parse]
+  | .text ty, _, pns, x, _ => by simp only [decF, canonF, FTy.canon_parse]
+  | .enumChild ns decl anyNs names m, _, pns, x, _ => by
     simp only [decF]
     split
     · rename_i k _
@@ -1040,22 +1247,49 @@ theorem canonF_decF : ∀ (f : Field) (pns : Str) (x : Node), canonF f (decF pns
       | none => rfl
       | some i => simp [canonF, idxOf_lt hi]
     · rfl
-  | .child h fs mode, pns, x => by
+  | .tagChild ns decl anyNs names skip ko last tf, _, pns, x, _ => by
     simp only [decF]
     split
-    · simp only [canonF]; exact canonFs_decFs fs _ _
+    · rename_i k _
+      split
+      · rename_i i hi
+        by_cases htf : i ∈ tf <;> simp [canonF, Val.tagParts, idxOf_lt hi, htf]
+      · simp [canonF, Val.tagParts]
+    · simp [canonF, Val.tagParts]
+  | .child h fs mode, pw, pns, x, hw => by
+    simp only [wfF, Bool.and_eq_true] at hw
+    obtain ⟨⟨⟨_, _⟩, hwfs⟩, hq⟩ := hw
+    -- the all-defaults record is canonical: under a guard it writes nothing
+    have hnull : canonF (.child h fs mode) (.record (decFs h.ns nullNode fs)) = true := by
+      simp only [canonF, Bool.and_eq_true, canonFs_decFs fs h.ns h.ns nullNode hwfs, true_and]
+      cases mode with
+      | wrapGuard n =>
+        have hq' : quietFs fs = true := by simpa [ChildMode.isGuard] using hq
+        simp [encFs_null_quiet fs h.ns hq']
+      | _ => simp [guardOff, ChildMode.isGuard]
+    simp only [decF]
+    split
+    · rename_i k _
+      split
+      · exact hnull
+      · rename_i hg
+        simp only [Bool.not_eq_true] at hg
+        simp [canonF, canonFs_decFs fs h.ns _ k hwfs, hg]
     · split
       · rename_i hm; simp only [canonF, hm]
-      · simp only [canonF]; exact canonFs_decFs fs _ _
-  | .many h fs ne, pns, x => by
+      · exact hnull
+  | .many h fs ne, pw, pns, x, hw => by
+    simp only [wfF, Bool.and_eq_true] at hw
     simp only [decF, canonF, List.all_eq_true, List.mem_map]
     rintro it ⟨k, _, rfl⟩
-    exact canonFs_decFs fs _ _
-theorem canonFs_decFs : ∀ (fs : List Field) (pns : Str) (x : Node), canonFs fs (decFs pns x fs) = true
-  | [], pns, x => by simp [decFs, canonFs]
-  | f :: fs, pns, x => by
+    exact canonFs_decFs fs h.ns _ _ hw.2
+theorem canonFs_decFs : ∀ (fs : List Field) (pw pns : Str) (x : Node), wfFs pw fs = true →
+    canonFs fs (decFs pns x fs) = true
+  | [], _, pns, x, _ => by simp [decFs, canonFs]
+  | f :: fs, pw, pns, x, hw => by
+    obtain ⟨h1, _, h3⟩ := wfFs_cons hw
     simp only [decFs, canonFs, Bool.and_eq_true]
-    exact ⟨canonF_decF f pns x, canonFs_decFs fs pns x⟩
+    exact ⟨canonF_decF f pw pns x h1, canonFs_decFs fs pw pns x h3⟩
 end
 
 -- schemas without mandatory parts accept every value list
@@ -1064,6 +1298,7 @@ theorem mandF_of_noMand : ∀ (f : Field) (v : Val), noMandF f = true → mandF 
   | .attr .., _, _ => by simp [mandF]
   | .attrReadOnly .., _, _ => by simp [mandF]
   | .text _, _, _ => by simp [mandF]
+  | .tagChild .., _, _ => by simp [mandF]
   | .enumChild _ _ _ _ m, v, h => by
     simp only [noMandF, Bool.not_eq_true'] at h
     simp [mandF, h]
@@ -1079,191 +1314,6 @@ theorem mandOK_of_noMand : ∀ (fs : List Field) (vs : List Val), noMandFs fs = 
   | f :: fs, v :: vs, h => by
     simp only [noMandFs, Bool.and_eq_true] at h
     simp [mandOK, mandF_of_noMand f v h.1, mandOK_of_noMand fs vs h.2]
-end
-
-/-! ### read-only attributes: the code as it is versus the repaired schema -/
-
-theorem FTy.isDefault_parse_nil (ty : FTy) (hw : ty.wf = true) : ty.isDefault (ty.parse []) = true := by
-  cases ty with
-  | str => rfl
-  | nat b => simp [FTy.parse, FTy.isDefault, lenientNat_nil]
-  | optNat b => simp [FTy.parse, FTy.isDefault, strictNat_nil]
-  | optInt b => simp [FTy.parse, FTy.isDefault, strictInt_nil, countOfSigned]
-  | optIntZ b => simp [FTy.wf] at hw
-  | posInt b => simp [FTy.parse, FTy.isDefault, strictInt_nil, posOfSigned]
-  | enumL ns =>
-    simp only [FTy.wf, Bool.and_eq_true, Bool.not_eq_true', contains_false_iff] at hw
-    simp [FTy.parse, FTy.isDefault, lowerStr, idxOf_none_of_not_mem hw.1.1]
-  | flag ts =>
-    simp only [FTy.wf, Bool.and_eq_true, Bool.not_eq_true', contains_false_iff] at hw
-    simp [FTy.parse, FTy.isDefault, hw.2]
-  | enum ns =>
-    simp only [FTy.wf, Bool.and_eq_true, Bool.not_eq_true', contains_false_iff] at hw
-    simp [FTy.parse, FTy.isDefault, idxOf_none_of_not_mem hw.1]
-  | enumD ns d =>
-    simp only [FTy.wf, Bool.and_eq_true, Bool.not_eq_true', contains_false_iff] at hw
-    simp [FTy.parse, FTy.isDefault, idxOf_none_of_not_mem hw.1]
-  | b64 => rfl
-  | dateTime => simp [FTy.parse, FTy.isDefault, dtParseCode_nil]
-
-mutual
-theorem decF_fix : ∀ (f : Field) (pns : Str) (x : Node), decF pns x (fixF f) = decF pns x f
-  | .attr .., _, _ => rfl
-  | .attrReadOnly .., _, _ => by simp [fixF, decF]
-  | .text _, _, _ => rfl
-  | .enumChild .., _, _ => rfl
-  | .child h fs m, pns, x => by
-    simp only [fixF, decF]
-    split
-    · rw [decFs_fix fs]
-    · rw [decFs_fix fs]
-  | .many h fs ne, pns, x => by
-    simp only [fixF, decF]
-    congr 1
-    apply List.map_congr_left
-    intro k _
-    rw [decFs_fix fs]
-theorem decFs_fix : ∀ (fs : List Field) (pns : Str) (x : Node), decFs pns x (fixFs fs) = decFs pns x fs
-  | [], _, _ => rfl
-  | f :: fs, pns, x => by simp only [fixFs, decFs, decF_fix f, decFs_fix fs]
-end
-
-mutual
-theorem encF_fix_reset : ∀ (f : Field) (pns : Str) (v : Val), wfF pns (fixF f) = true →
-    encF (fixF f) (resetF f v) = encF f v
-  | .attr .., _, _, _ => rfl
-  | .attrReadOnly n ty, pns, v, hw => by
-    simp only [fixF, wfF, Bool.and_eq_true] at hw
-    simp [fixF, resetF, encF, FTy.isDefault_parse_nil ty hw.2]
-  | .text _, _, _, _ => rfl
-  | .enumChild .., _, _, _ => rfl
-  | .child h fs m, pns, v, hw => by
-    simp only [fixF, wfF, Bool.and_eq_true] at hw
-    cases v with
-    | record vs => simp only [fixF, resetF, Val.mapRecord, encF, encFs_fix_reset fs h.ns vs hw.2]
-    | _ => rfl
-  | .many h fs ne, pns, v, hw => by
-    simp only [fixF, wfF, Bool.and_eq_true] at hw
-    cases v with
-    | list items =>
-      simp only [fixF, resetF, encF, List.map_map]
-      congr 1
-      apply List.map_congr_left
-      intro it _
-      cases it with
-      | record vs => simp only [Function.comp, Val.mapRecord, Val.recVals, encFs_fix_reset fs h.ns vs hw.2]
-      | _ => simp only [Function.comp, Val.mapRecord, Val.recVals, encFs_fix_nil fs]
-    | _ => rfl
-theorem encFs_fix_reset : ∀ (fs : List Field) (pns : Str) (vs : List Val), wfFs pns (fixFs fs) = true →
-    encFs (fixFs fs) (resetFs fs vs) = encFs fs vs
-  | [], _, _, _ => by simp [fixFs, encFs]
-  | f :: fs, _, [], _ => by simp [fixFs, resetFs, encFs]
-  | f :: fs, pns, v :: vs, hw => by
-    simp only [fixFs] at hw
-    obtain ⟨h1, _, h3⟩ := wfFs_cons hw
-    simp only [fixFs, resetFs, encFs, encF_fix_reset f pns v h1, encFs_fix_reset fs pns vs h3]
-theorem encFs_fix_nil : ∀ (fs : List Field), encFs (fixFs fs) [] = encFs fs []
-  | [] => rfl
-  | f :: fs => by simp [fixFs, encFs]
-end
-
-mutual
-theorem encF_reset : ∀ (f : Field) (v : Val), encF f (resetF f v) = encF f v
-  | .attr .., _ => rfl
-  | .attrReadOnly .., _ => by simp [encF]
-  | .text _, _ => rfl
-  | .enumChild .., _ => rfl
-  | .child h fs m, v => by
-    cases v with
-    | record vs => simp only [resetF, Val.mapRecord, encF, encFs_reset fs vs]
-    | _ => rfl
-  | .many h fs ne, v => by
-    cases v with
-    | list items =>
-      simp only [resetF, encF, List.map_map]
-      congr 1
-      apply List.map_congr_left
-      intro it _
-      cases it with
-      | record vs => simp only [Function.comp, Val.mapRecord, Val.recVals, encFs_reset fs vs]
-      | _ => rfl
-    | _ => rfl
-theorem encFs_reset : ∀ (fs : List Field) (vs : List Val), encFs fs (resetFs fs vs) = encFs fs vs
-  | [], _ => by simp [encFs]
-  | f :: fs, [] => by simp [resetFs]
-  | f :: fs, v :: vs => by simp only [resetFs, encFs, encF_reset f v, encFs_reset fs vs]
-end
-
-mutual
-theorem canonF_fix_reset : ∀ (f : Field) (v : Val), canonF f v = true → canonF (fixF f) (resetF f v) = true
-  | .attr .., _, h => h
-  | .attrReadOnly n ty, v, _ => by simp only [fixF, resetF, canonF, FTy.canon_parse]
-  | .text _, _, h => h
-  | .enumChild .., _, h => h
-  | .child hd fs m, v, h => by
-    cases v with
-    | record vs =>
-      simp only [canonF] at h
-      simp only [fixF, resetF, Val.mapRecord, canonF, canonFs_fix_reset fs vs h]
-    | absent => simpa [fixF, resetF, Val.mapRecord, canonF] using h
-    | _ => simp [canonF] at h
-  | .many hd fs ne, v, h => by
-    cases v with
-    | list items =>
-      simp only [canonF, List.all_eq_true] at h
-      simp only [fixF, resetF, canonF, List.all_eq_true, List.mem_map]
-      rintro it' ⟨it, hit, rfl⟩
-      have := h it hit
-      cases it with
-      | record vs => simp only [Val.mapRecord]; simp only at this; exact canonFs_fix_reset fs vs this
-      | _ => simp at this
-    | _ => simp [canonF] at h
-theorem canonFs_fix_reset : ∀ (fs : List Field) (vs : List Val), canonFs fs vs = true →
-    canonFs (fixFs fs) (resetFs fs vs) = true
-  | [], [], _ => by simp [fixFs, resetFs, canonFs]
-  | [], _ :: _, h => by simp [canonFs] at h
-  | _ :: _, [], h => by simp [canonFs] at h
-  | f :: fs, v :: vs, h => by
-    simp only [canonFs, Bool.and_eq_true] at h
-    simp only [fixFs, resetFs, canonFs, Bool.and_eq_true]
-    exact ⟨canonF_fix_reset f v h.1, canonFs_fix_reset fs vs h.2⟩
-end
-
-mutual
-theorem mandF_fix : ∀ (f : Field) (v : Val), mandF (fixF f) v = mandF f v
-  | .attr .., _ => rfl
-  | .attrReadOnly .., _ => by simp [fixF, mandF]
-  | .text _, _ => rfl
-  | .enumChild .., _ => rfl
-  | .child h fs m, v => by
-    cases v with
-    | record vs => simp only [fixF, mandF, mandOK_fix fs vs]
-    | _ => rfl
-  | .many h fs ne, v => by cases v <;> rfl
-theorem mandOK_fix : ∀ (fs : List Field) (vs : List Val), mandOK (fixFs fs) vs = mandOK fs vs
-  | [], _ => by simp [fixFs, mandOK]
-  | f :: fs, [] => by simp [fixFs, mandOK]
-  | f :: fs, v :: vs => by simp only [fixFs, mandOK, mandF_fix f v, mandOK_fix fs vs]
-end
-
-mutual
-theorem mandF_reset : ∀ (f : Field) (v : Val), mandF f (resetF f v) = mandF f v
-  | .attr .., _ => rfl
-  | .attrReadOnly .., _ => by simp [mandF]
-  | .text _, _ => rfl
-  | .enumChild .., _ => rfl
-  | .child h fs m, v => by
-    cases v with
-    | record vs => simp only [resetF, Val.mapRecord, mandF, mandOK_reset fs vs]
-    | _ => rfl
-  | .many h fs ne, v => by
-    cases v with
-    | list items => simp [resetF, mandF]
-    | _ => rfl
-theorem mandOK_reset : ∀ (fs : List Field) (vs : List Val), mandOK fs (resetFs fs vs) = mandOK fs vs
-  | [], _ => by simp [resetFs]
-  | f :: fs, [] => by simp [resetFs]
-  | f :: fs, v :: vs => by simp only [resetFs, mandOK, mandF_reset f v, mandOK_reset fs vs]
 end
 
 end Qx.Xml.Codec
